@@ -239,6 +239,10 @@ pub fn run(tier: &str) -> i32 {
             ("O21", Enc::M, 1),
             ("O12", Enc::M, 1),
             ("G33", Enc::M, 1),
+            ("G33", Enc::U, 4),
+            ("G43", Enc::M, 16),
+            ("T32", Enc::M, 16),
+            ("O31", Enc::M, 16),
         ]
     } else {
         vec![
